@@ -6,6 +6,7 @@ import props as P
 import theorems as T
 import special  # registers PRE/SPECIAL hooks
 import fuzzstage
+import covstage
 
 
 def fail_line(pid, path, nofail=False):
@@ -263,6 +264,12 @@ def main(argv):
         return do_replay(pid, replay)
     workdir = os.path.join(hh.BUILD, "work", pid)
     os.makedirs(workdir, exist_ok=True)
+    import glob
+    for f in glob.glob(os.path.join(workdir, "*.ops")) + glob.glob(os.path.join(workdir, "*.out")):
+        try:
+            os.unlink(f)      # op files of earlier runs must not count towards this run's coverage
+        except OSError:
+            pass
     pre = T.PRE.get(pid)
     if pre:
         pre(res)
@@ -295,6 +302,11 @@ def main(argv):
         fuzzstage.stage(res, pid, tier, seed, workdir, stats=configs_stats)
     except Exception as e:
         res.notes.append(f"coverage-guided search stage failed to run ({str(e)[:200]}): not executed")
+    # which regions of the crate did the streams of this run execute; escalate on new, unexercised code
+    try:
+        covstage.stage(res, pid, tier, seed, workdir, configs_stats)
+    except Exception as e:
+        res.notes.append(f"tie-coverage stage failed to run ({str(e)[:200]}): not executed")
     # a proof obligation or the correspondence broke but no oracle failed yet: search the implementation
     # for a concrete input violating the property itself (fresh seeds, oracles only, time-boxed)
     if res.n_oracle_fail == 0 and (res.corr_pending or res.proof_broken) and pid in P.PROPS:
